@@ -1511,8 +1511,10 @@ class FileBuilder:
                 continue
             except OSError:
                 # Don't leave behind the directories we just created, since
-                # no one will be responsible for them
-                FileBuilder._remove_empty_dirs(made_dirs)
+                # no one will be responsible for them. We can't simply remove
+                # them, because another thread might already be using them.
+                # Instead, make _build_dirs responsible for them.
+                self._build_dirs.error_making_dirs(dirs_to_make, made_dirs)
                 raise
             made_dirs.append(parent)
             logger.info('Created directory {:s}'.format(parent))
